@@ -70,14 +70,22 @@ pub fn c12_plans(_m: &mut Mon, ctx: &StepCtx, stats: &mut Stats, out: &mut Vec<V
                 check_delegation_plan(ctx, v, c.funds_of(DENOM), &targets, &plan, stats, out);
             }
             Some((HUB, "redelegate_proxy", body)) => {
+                // the redelegation plan of one source validator may be spread over several proxy
+                // calls: evaluate it once per source, at its first call, over the whole transaction
                 let src = body.get("src_validator").and_then(|s| s.as_str()).unwrap_or("").to_string();
+                let first = o.calls.iter().find(|k| k.ok && matches!(k.exec(), Some((HUB, "redelegate_proxy", b)) if b.get("src_validator").and_then(|s| s.as_str()) == Some(src.as_str()))).map(|k| k.idx);
+                if first != Some(c.idx) {
+                    continue;
+                }
                 let layout = layout_before(ctx, c.idx);
                 let amount = layout.get(&src).copied().unwrap_or(0);
                 let targets: BTreeMap<String, u128> = registered.iter().filter(|r| **r != src).map(|r| (r.clone(), layout.get(r).copied().unwrap_or(0))).collect();
                 let mut plan: BTreeMap<String, u128> = BTreeMap::new();
-                for k in o.children(c.idx) {
-                    if let MsgRec::Redelegate { dst, amount, .. } = &k.msg {
-                        *plan.entry(dst.clone()).or_insert(0) += amount;
+                for k in &o.calls {
+                    if let MsgRec::Redelegate { src: s2, dst, amount } = &k.msg {
+                        if *s2 == src {
+                            *plan.entry(dst.clone()).or_insert(0) += amount;
+                        }
                     }
                 }
                 check_delegation_plan(ctx, "redelegation", amount, &targets, &plan, stats, out);
@@ -286,10 +294,18 @@ pub fn c18_all(m: &mut Mon, ctx: &StepCtx, stats: &mut Stats, out: &mut Vec<Viol
         Op::IncAllowance { tok, owner, spender, amount, exp } => {
             if o.ok {
                 let k = (tok.idx(), owner.clone(), spender.clone());
-                let e = m.allow_model.entry(k).or_insert((0, Expiration::Never {}));
+                let e = m.allow_model.entry(k.clone()).or_insert((0, Expiration::Never {}));
                 e.0 += amount.u128();
                 if let Some(x) = exp.to_msg() {
                     e.1 = x;
+                }
+                // a grant keeps the stored expiration unless it names a new one
+                let me = m.allow_model.get(&k).cloned().unwrap();
+                if let Some(stored) = ctx.post.t(*tok).and_then(|t| t.allow.get(&(owner.clone(), spender.clone()))) {
+                    stats.check("c18_allowance_grant");
+                    if me.0 > 0 && (stored.allowance.u128() != me.0 || stored.expires != me.1) {
+                        viol(out, "C18", "allowance_grant_follows_model", ctx.idx, &format!("{}.increase_allowance:stored_allowance", tok.addr()), format!("after IncreaseAllowance {} {:?} by {} for {}: stored ({}, {:?}), grants so far give ({}, {:?})", amount, exp, owner, spender, stored.allowance, stored.expires, me.0, me.1));
+                    }
                 }
             }
         }
@@ -462,17 +478,24 @@ pub fn c20_params(m: &mut Mon, ctx: &StepCtx, stats: &mut Stats, out: &mut Vec<V
     if (contract, variant) == (HUB, "update_config") {
         expect["token_contract"] = expect["bsei_token_contract"].clone();
     }
+    let mut post_cmp = post_v.clone();
     if (contract, variant) == (DISPATCHER, "update_swap_denom") {
+        // the list is a set for this purpose: adding makes the denom a member and keeps the others,
+        // removing drops exactly that denom (duplicates and order are not constrained)
         let d = get(&body, "swap_denom").as_str().unwrap_or("").to_string();
         let add = get(&body, "is_add").as_bool().unwrap_or(false);
-        let mut list: Vec<Value> = pre_v["swap_denoms"].as_array().cloned().unwrap_or_default();
+        let as_set = |v: &Value| -> std::collections::BTreeSet<String> { v.as_array().map(|a| a.iter().filter_map(|x| x.as_str().map(|s| s.to_string())).collect()).unwrap_or_default() };
+        let mut want = as_set(&pre_v["swap_denoms"]);
         if add {
-            list.push(Value::String(d));
+            want.insert(d);
         } else {
-            list.retain(|x| x.as_str() != Some(d.as_str()));
+            want.remove(&d);
         }
-        expect["swap_denoms"] = Value::Array(list);
+        let norm = |set: &std::collections::BTreeSet<String>| Value::Array(set.iter().map(|s| Value::String(s.clone())).collect());
+        expect["swap_denoms"] = norm(&want);
+        post_cmp["swap_denoms"] = norm(&as_set(&post_v["swap_denoms"]));
     }
+    let post_v = post_cmp;
     if expect != post_v {
         viol(out, "C20", "update_merges_present_fields_keeps_absent_ones", ctx.idx, &format!("{}.{}:merge", contract, variant), format!("message {} on {} gave {} (expected {})", body, pre_v, post_v, expect));
     }
@@ -492,7 +515,32 @@ mod erased {
 
 // ================================================================ C10 static
 
-pub fn c10_static(m: &mut Mon, ctx: &StepCtx, _stats: &mut Stats, out: &mut Vec<Violation>) {
+pub fn c10_static(m: &mut Mon, ctx: &StepCtx, stats: &mut Stats, out: &mut Vec<Violation>) {
+    // two-step ownership model: only the owner's committed SetOwner moves the nominee (to the
+    // address named in the message), only the nominee's committed AcceptOwnership moves the owner
+    if ctx.committed() {
+        if let (Some((c, v)), Some(tx)) = (ctx.top(), ctx.tx) {
+            if let Some(e) = m.owner_model.get_mut(c) {
+                match v {
+                    "set_owner" => {
+                        if let Some(n) = tx.msg.get("set_owner").and_then(|b| b.get("new_owner_addr")).and_then(|x| x.as_str()) {
+                            e.1 = n.to_string();
+                        }
+                    }
+                    "accept_ownership" => e.0 = tx.sender.clone(),
+                    _ => {}
+                }
+            }
+        }
+    }
+    for (c, model) in &m.owner_model {
+        if let Some(actual) = ctx.post.owners.get(c) {
+            stats.check("c10_ownership_model");
+            if actual != model {
+                viol(out, "C10", "ownership_follows_two_step_model", ctx.idx, &format!("{}:ownership_model", c), format!("{}: owner/nominee are {:?} but the committed SetOwner/AcceptOwnership history gives {:?} (step {:?})", c, actual, model, ctx.top()));
+            }
+        }
+    }
     if let Some(h) = &ctx.post.hub {
         let cur = (h.config.bsei_token_contract.clone(), h.config.stsei_token_contract.clone());
         if (m.token_addrs.0.is_some() && cur.0 != m.token_addrs.0) || (m.token_addrs.1.is_some() && cur.1 != m.token_addrs.1) {
